@@ -16,6 +16,9 @@ CONSTANTS MaxSteps,   \* bound on the number of calls after the start for the ex
           ContentsC,  \* named contents of those packages
           FlagsC,     \* subset of BOOLEAN: header with its own relationship part + package-level property relationships
           AbsC,       \* subset of BOOLEAN: internal targets written as absolute paths
+          KeepC,      \* Render: which document of the engine is kept - "only" (one rendering), "first" (a second document is
+                      \* rendered from the same template and data afterwards), "second" (the engine rendered one before);
+                      \* rendering is a function of template and data, so the model is the same for all three
           LastC,      \* generation: op names allowed as the last step ({} = all)
           Design      \* "unused" (required) | "asbuilt" (allocation of the pinned tree; counterexample cfg only)
 
@@ -49,7 +52,7 @@ Ops ==
   \cup (IF On("AddFootnote") THEN {[op |-> "AddFootnote", via |-> v] : v \in Pick({"text", "run"})} ELSE {})
   \cup (IF On("SetProps") THEN {[op |-> "SetProps", via |-> v] : v \in Pick({"props", "title"})} ELSE {})
   \cup (IF On("Placeholder") THEN {[op |-> "Placeholder", where |-> w] : w \in WhereC \cap {"body", "cell"}} ELSE {})
-  \cup (IF On("Render") THEN {[op |-> "Render", via |-> v] : v \in Pick({"doc", "legacy", "renderer"})} ELSE {})
+  \cup (IF On("Render") THEN {[op |-> "Render", via |-> v, keep |-> k] : v \in Pick({"doc", "legacy", "renderer"}), k \in KeepC} ELSE {})
   \cup {[op |-> o, all |-> a] : o \in RemoveOps \cap OpNames, a \in BOOLEAN}
   \cup (IF On("Reopen") THEN {[op |-> "Reopen", via |-> v] : v \in Pick({"mem", "file"})} ELSE {})
   \cup {[op |-> o] : o \in OpNames \cap {"AddEndnote", "SetFootnoteConfig", "AddStyle", "AddParagraph", "AddTable", "Save", "ToBytes"}}
